@@ -208,7 +208,11 @@ def run_shards(tag, prop, tier, seed, rundir, nshards=None, scale=None, time_cap
             args = wrap(s.i) + args
         s.out_path, s.journal_path = outp, jr
         t0 = time.time()
-        p = subprocess.Popen(args, env=worker_env(tag), cwd=cwd or HARNESS, stdout=subprocess.PIPE, stderr=subprocess.PIPE,
+        env = worker_env(tag)
+        if tag == "miri":
+            # every shard gets its own scheduler seed, so thread cases see different interleavings
+            env["MIRIFLAGS"] = env.get("MIRIFLAGS", "") + " -Zmiri-seed=%d" % (seed * 64 + s.i)
+        p = subprocess.Popen(args, env=env, cwd=cwd or HARNESS, stdout=subprocess.PIPE, stderr=subprocess.PIPE,
                              start_new_session=True)
         th1 = threading.Thread(target=_drain, args=(p.stdout, s, "out"))
         th2 = threading.Thread(target=_drain, args=(p.stderr, s, "err"))
